@@ -1036,7 +1036,7 @@ func c01Admission(c *Ctx) {
 		var bad []string
 		undecidable := ""
 		n := 0
-		for _, cnt := range []int64{0, 1, 2, 3, 7, 255, 65536} {
+		for _, cnt := range c.grid([]int64{0, 1, 2, 3, 7, 255, 65536}, 0, 600, 1) {
 			for _, spare := range []int64{0, 4} {
 				left := cnt*st.unit + spare
 				atom := func(v ssa.Value) (int64, bool) {
